@@ -19,7 +19,7 @@
 (*     group (mask, style) of renderings that differ only by a permutation.*)
 (* With FULL=1 the set of recorded ids must be exactly the case set.       *)
 (***************************************************************************)
-EXTENDS SyltInit, Json, IOUtils
+EXTENDS SyltTypeOrder, Json, IOUtils
 
 VARIABLES k, pc, o
 vars == <<k, pc, o>>
@@ -36,17 +36,48 @@ RECURSIVE Fact(_)
 Fact(n) == IF n <= 1 THEN 1 ELSE n * Fact(n - 1)
 Min(a, b) == IF a < b THEN a ELSE b
 
-ShapeRecs == {x \in 1..Len(Rec) : Rec[x].fam = "shape"}
-PosRecs == {x \in 1..Len(Rec) : Rec[x].fam = "pos"}
-ASSUME \A x \in 1..Len(Rec) : Rec[x].fam \in {"shape", "pos"}
-ASSUME Full => {Rec[x].id : x \in ShapeRecs} = CasesOf(EnvInt("MINN", 1), EnvInt("MAXN", 2), EnvInt("MOD", 1), EnvInt("SEED", 1))
-ASSUME Full => {Rec[x].id : x \in PosRecs} = (IF EnvInt("POS", 1) = 1 THEN PosCases ELSE {})
-ASSUME Full => Cardinality({Rec[x].id : x \in ShapeRecs}) + Cardinality({Rec[x].id : x \in PosRecs}) = Len(Rec)
+Fams == {"shape", "pos", "unspec", "self", "type"}
+RecsOf(f) == {x \in 1..Len(Rec) : Rec[x].fam = f}
+IdsOf(f) == {Rec[x].id : x \in RecsOf(f)}
+ASSUME \A x \in 1..Len(Rec) : Rec[x].fam \in Fams
+ASSUME Full => IdsOf("shape") = CasesOf(EnvInt("MINN", 1), EnvInt("MAXN", 2), EnvInt("MOD", 1), EnvInt("SEED", 1))
+ASSUME Full => IdsOf("pos") = (IF EnvInt("POS", 1) = 1 THEN PosCases ELSE {})
+ASSUME Full => IdsOf("unspec") = (IF EnvInt("POS", 1) = 1 THEN UnspecCases ELSE {})
+ASSUME Full => IdsOf("self") = (IF EnvInt("POS", 1) = 1 THEN SelfCases ELSE {})
+ASSUME Full => IdsOf("type") = (IF EnvInt("TYPES", 1) = 1 THEN TypeCases ELSE {})
+ASSUME Full => Cardinality(IdsOf("shape")) + Cardinality(IdsOf("pos")) + Cardinality(IdsOf("unspec")) + Cardinality(IdsOf("self")) + Cardinality(IdsOf("type")) = Len(Rec)
 
 \* the program of a record, re-derived from its id
-ProgOf(r) == IF r.fam = "shape" THEN ShapeProg(r.id) ELSE PosProg(r.id)
-InUniverse(r) == IF r.fam = "shape" THEN Len(r.id) \in 1..4 /\ WellFormed(r.id) /\ Sorted(r.id)
-                 ELSE r.id \in PosCases
+ProgOf(r) == CASE r.fam = "shape" -> ShapeProg(r.id)
+               [] r.fam = "type" -> TypeProg(r.id)
+               [] r.fam = "self" -> SelfProg(r.id)
+               [] OTHER -> PosProg(r.id)
+InUniverse(r) == CASE r.fam = "shape" -> Len(r.id) \in 1..4 /\ WellFormed(r.id) /\ Sorted(r.id)
+                   [] r.fam = "pos" -> r.id \in PosCases
+                   [] r.fam = "unspec" -> r.id \in UnspecCases
+                   [] r.fam = "self" -> r.id \in SelfCases
+                   [] r.fam = "type" -> r.id \in TypeCases
+\* the order semantics is not run on planted ill-typed programs and on unspecified-behaviour cases
+NotRun(r) == (r.fam = "type" /\ IllTyped(r.id)) \/ r.fam = "unspec"
+ExpectedClass(r, oc) == IF r.fam = "unspec" THEN "unspecified"
+                       ELSE IF r.fam = "type" /\ IllTyped(r.id) THEN "illtyped" ELSE ClassOfOutcomes(oc)
+
+\* judging a group of renderings:
+\*   ordinary programs            Verdict against the outcomes of the order semantics
+\*   planted ill-typed programs   must be rejected in every order (the typing judgement TypeOk says so)
+\*   unspecified behaviour        accept/reject and the whole observation identical in every order
+Judge(r, O, oc) ==
+    IF r.fam = "unspec"
+    THEN LET v == Verdict(O, {[out |-> <<>>, status |-> "a"], [out |-> <<>>, status |-> "b"]}) IN   \* consistency clauses only
+         IF v # "" THEN v ELSE IF Cardinality(O) > 1 THEN "order-dependent" ELSE ""
+    ELSE IF r.fam = "type" /\ IllTyped(r.id)
+    THEN LET v == Verdict(O, {}) IN IF v = "cycle-accepted" THEN "illtyped-accepted" ELSE v
+    ELSE Verdict(O, oc)
+JudgeBad(r, O, oc) ==
+    IF r.fam = "unspec" THEN (IF Verdict(O, {[out |-> <<>>, status |-> "a"], [out |-> <<>>, status |-> "b"]}) # ""
+                              THEN BadObs(O, {[out |-> <<>>, status |-> "a"], [out |-> <<>>, status |-> "b"]}) ELSE O)
+    ELSE IF r.fam = "type" /\ IllTyped(r.id) THEN BadObs(O, {})
+    ELSE BadObs(O, oc)
 
 Covered(r, NS) ==
     LET vs == r.variants
@@ -73,7 +104,7 @@ Init == k \in 1..Len(Rec) /\ pc = "start" /\ o = {}
 Derive ==
   /\ pc = "start" /\ pc' = "derived" /\ k' = k
   /\ Assert(InUniverse(Rec[k]), <<"record id is not a program of the universe", k>>)
-  /\ o' = Outcomes(ProgOf(Rec[k]))
+  /\ o' = IF NotRun(Rec[k]) THEN {} ELSE Outcomes(ProgOf(Rec[k]))
 
 Validate ==
   /\ pc = "derived" /\ pc' = "done" /\ k' = k /\ o' = o
@@ -82,16 +113,17 @@ Validate ==
          groups == {<<vs[x][2], vs[x][3]>> : x \in 1..Len(vs)}
          ObsIdx(g) == {vs[x][4] : x \in {y \in 1..Len(vs) : vs[y][2] = g[1] /\ vs[y][3] = g[2]}}
          ObsSet(g) == {r.obs[i] : i \in ObsIdx(g)}
-         failing == {g \in groups : Verdict(ObsSet(g), o) # ""} IN
+         failing == {g \in groups : Judge(r, ObsSet(g), o) # ""} IN
      /\ Assert(r.tops = TopsOf(ProgOf(r)), <<"recorded AST is not that of the re-derived program", k>>)
-     /\ Assert(r.class = ClassOfOutcomes(o), <<"recorded class differs from the re-derived one", k>>)
+     /\ Assert(r.class = ExpectedClass(r, o), <<"recorded class differs from the re-derived one", k>>)
+     /\ Assert(r.fam = "type" => (TypeOk(ProgOf(r)) <=> ~IllTyped(r.id)), <<"typing judgement disagrees with the label", k>>)
      /\ Assert(Covered(r, Len(r.tops)), <<"the variants do not cover what the specification requires", k>>)
      /\ \A g \in failing :
-           PrintT(<<"REJECT", ToJson([rec |-> k, why |-> Verdict(ObsSet(g), o), mask |-> g[1], style |-> g[2],
-                                      badobs |-> {i \in ObsIdx(g) : r.obs[i] \in BadObs(ObsSet(g), o)},
+           PrintT(<<"REJECT", ToJson([rec |-> k, why |-> Judge(r, ObsSet(g), o), mask |-> g[1], style |-> g[2],
+                                      badobs |-> {i \in ObsIdx(g) : r.obs[i] \in JudgeBad(r, ObsSet(g), o)},
                                       want |-> IF Cardinality(o) = 1 THEN [out |-> TheOutcome(o).out, status |-> TheOutcome(o).status]
-                                               ELSE [out |-> <<>>, status |-> ClassOfOutcomes(o)]])>>)
-     /\ PrintT(<<"JUDGED", ToJson([rec |-> k, class |-> ClassOfOutcomes(o),
+                                               ELSE [out |-> <<>>, status |-> ExpectedClass(r, o)]])>>)
+     /\ PrintT(<<"JUDGED", ToJson([rec |-> k, class |-> ExpectedClass(r, o),
                                    accepted |-> Cardinality({x \in 1..Len(vs) : r.obs[vs[x][4]].class = "ok"}),
                                    variants |-> Len(vs), groups |-> Cardinality(groups)])>>)
 
